@@ -742,7 +742,12 @@ void Run::exec_step(const Step &s) {
   switch (s.k) {
     case S_REQ: if (pre_req && pre_req(*this, s)) break; submit(pick_kind(s.a), (int)s.b, (int)s.c, (int)(s.d % R_NREACT), (int)(s.d / R_NREACT), false, chan, (int)(s.d / (R_NREACT * K_NKINDS) + s.c / 7)); break;
     case S_CANCEL: do_cancel(chan); break;
-    case S_STALL: W.now_us += (int64_t)s.a * 1000; W.deliver_due(); note("stall"); break;
+    case S_STALL:
+      stalls.push_back({W.now_us, 0});
+      if (s.a < 0) W.now_us += (1000000 - W.now_us % 1000000) + (-s.a - 1) * 1000000;   // land exactly on a whole second, |a|-1 seconds further
+      else W.now_us += (int64_t)s.a * 1000;
+      stalls.back().second = W.now_us;
+      W.deliver_due(); note("stall"); break;
     case S_ADV: {
       int64_t tf = W.next_flight_time();
       int64_t th = hint_time(chan);
